@@ -339,7 +339,7 @@ StmtCtxOf(k) == {j \in 1..Len(StmtCtx) : ~StmtForms[k][5] \/ j = 1}
 -----------------------------------------------------------------------------
 (* Graph shapes: concrete texts and the abstract Shake graph                *)
 
-Part0 == [declares |-> {}, uses |-> {}, effect |-> FALSE, removable |-> TRUE, force |-> FALSE, recs |-> {}, probe |-> ""]
+Part0 == [declares |-> {}, uses |-> {}, effect |-> FALSE, removable |-> TRUE, force |-> FALSE, recs |-> {}, probe |-> "", entryExp |-> FALSE]
 Eff(pr) == [Part0 EXCEPT !.effect = TRUE, !.removable = FALSE, !.probe = pr]
 EffU(pr, us) == [Eff(pr) EXCEPT !.uses = us]
 Dcl(n) == [Part0 EXCEPT !.declares = {n}]
@@ -372,7 +372,9 @@ EntryUnusedParts(g) == << Imp(g), Eff("e.pre") >>
 \* abstract file ids: 1 entry, 2 the slot module (unless the slot is in the entry), 3/4 others
 Sh(id, files, slotFile, paths, parts, imp, exp, seFalse) ==
   [id |-> id, files |-> files, slotFile |-> slotFile, paths |-> paths,
-   parts |-> parts, imp |-> imp, exp |-> exp, seFalse |-> seFalse]
+   parts |-> parts, imp |-> imp, exp |-> exp, seFalse |-> seFalse,
+   \* CommonJS files; does the entry point export anything (then the harness reads every export after loading); the dimensions of the re-export family
+   cjs |-> {}, cjsPaths |-> {}, readExports |-> FALSE, dims |-> [rk |-> "", se |-> "", wrap |-> "", use |-> FALSE]]
 
 NoImp == {}
 Shapes == <<
@@ -445,10 +447,82 @@ Shapes == <<
      << {}, {}, {} >>, << {}, ModExp, {ExpLocal("idx")} >>, {3})
 >>
 
+-----------------------------------------------------------------------------
+(* The entry point RE-EXPORT family: the cross product                       *)
+(*   {re-export kind: export {..} from | export * from | import-then-export}  *)
+(* x {sideEffects of the target package: true (no field) | false | array     *)
+(*    pattern that does not match the file}                                   *)
+(* x {wrap of the target: none | esm wrapped lazily because it is ALSO the    *)
+(*    target of import() | ... of require() | a CommonJS file}                *)
+(* x {the entry point uses the binding itself or not}.                        *)
+(* The entry point exports bindings it does not declare: after loading the    *)
+(* bundle every export is read (value, typeof, exported functions called)     *)
+(* and compared with the native module graph.                                 *)
+
+TgtBody == "P('m.pre');\nexport const before = 'b';\n@S@\nexport const after = 'a';\nexport function describe() { return 'd:' + before + after; }\nP('m.post');\n"
+TgtParts == << Eff("m.pre"), Dcl("before"), SlotPart, Dcl("after"), DclU("describe", {"before", "after"}), Eff("m.post") >>
+TgtExp == {ExpLocal("before"), ExpLocal("after"), ExpLocal("describe")}
+TgtCjsBody == "P('m.pre');\nexports.before = 'b';\nexports.after = 'a';\nexports.describe = function () { return 'd:' + exports.before + exports.after; };\nP('m.post');\n"
+TgtCjsParts == << Eff("m.pre"), Eff("m.post") >>
+PkgJsonCjs(name, se) == "{ \"name\": \"" \o name \o "\", \"version\": \"1.0.0\", \"main\": \"index.js\"" \o se \o " }\n"
+
+RKs == <<"from", "star", "impexp">>
+SEs == <<"true", "false", "array">>
+WRs == <<"none", "dyn", "req", "cjs">>
+SeField(se) == CASE se = "true" -> "" [] se = "false" -> SeFalseField [] OTHER -> ", \"sideEffects\": [\"./fx.js\"]"
+
+ExNames == "before, after, describe"
+ExHead(rk) == CASE rk = "from" -> "export { " \o ExNames \o " } from 'pkg';\n"
+                [] rk = "star" -> "export * from 'pkg';\n"
+                [] OTHER -> "import { " \o ExNames \o " } from 'pkg';\nexport { " \o ExNames \o " };\n"
+ExUseImport(rk, use) == IF use /\ rk # "impexp" THEN "import { before as ub } from 'pkg';\n" ELSE ""
+ExWrapText(wr) == CASE wr = "dyn" -> "import('pkg').then((ns) => P('e.then:' + ns.before), (err) => P('e.catch:' + err.name));\n"
+                    [] wr = "req" -> "P('e.req:' + require('pkg').after);\n"
+                    [] OTHER -> ""
+ExUseText(rk, use) == IF ~use THEN "" ELSE IF rk = "impexp" THEN "P('e.use:' + before);\n" ELSE "P('e.use:' + ub);\n"
+ExEntryText(rk, wr, use) == ExHead(rk) \o ExUseImport(rk, use) \o "P('e.pre');\n" \o ExWrapText(wr) \o ExUseText(rk, use)
+
+EntryExpPart == [Part0 EXCEPT !.removable = FALSE, !.entryExp = TRUE]
+ExWrapParts(wr) == CASE wr = "dyn" -> << Dyn("e.then", 2) >>
+                     [] wr = "req" -> << [Eff("e.req") EXCEPT !.recs = {[kind |-> "require", to |-> 2]}] >>
+                     [] OTHER -> << >>
+\* part 1 is always the re-export / import statement (ExpFrom / ExpStar name it)
+ExEntryParts(rk, wr, use) ==
+  << Imp(2) >> \o (IF use /\ rk # "impexp" THEN << Imp(2) >> ELSE << >>) \o << Eff("e.pre") >> \o ExWrapParts(wr)
+  \o (IF use THEN << EffU("e.use", {IF rk = "impexp" THEN "before" ELSE "ub"}) >> ELSE << >>) \o << EntryExpPart >>
+ExEntryImp(rk, use) ==
+  (IF rk = "impexp" THEN {Bind("before", 2), Bind("after", 2), Bind("describe", 2)} ELSE {})
+  \cup (IF use /\ rk # "impexp" THEN {[local |-> "ub", from |-> 2, name |-> "before"]} ELSE {})
+ExEntryExp(rk) == CASE rk = "from" -> {ExpFrom("before", 2, 1), ExpFrom("after", 2, 1), ExpFrom("describe", 2, 1)}
+                    [] rk = "star" -> {ExpStar(2, 1)}
+                    [] OTHER -> {ExpLocal("before"), ExpLocal("after"), ExpLocal("describe")}
+
+ExShape(rk, se, wr, use) ==
+  LET cjs == wr = "cjs"
+      idx == "node_modules/pkg/index.js"
+  IN [Sh("ex_" \o rk \o "_" \o se \o "_" \o wr \o "_" \o (IF use THEN "u" ELSE "n"),
+         << <<"entry.js", ExEntryText(rk, wr, use)>>,
+            <<idx, IF cjs THEN TgtCjsBody ELSE TgtBody>>,
+            <<"node_modules/pkg/package.json", IF cjs THEN PkgJsonCjs("pkg", SeField(se)) ELSE PkgJson("pkg", SeField(se))>> >>,
+         IF cjs THEN 0 ELSE 2, <<"entry.js", idx>>,
+         << ExEntryParts(rk, wr, use), IF cjs THEN TgtCjsParts ELSE TgtParts >>,
+         << ExEntryImp(rk, use), {} >>, << ExEntryExp(rk), IF cjs THEN {} ELSE TgtExp >>,
+         IF se = "true" THEN {} ELSE {2})
+      EXCEPT !.cjs = IF cjs THEN {2} ELSE {}, !.cjsPaths = IF cjs THEN {idx} ELSE {}, !.readExports = TRUE,
+             !.dims = [rk |-> rk, se |-> se, wrap |-> wr, use |-> use]]
+
+\* `export *` of a CommonJS file is resolved at run time (__reExport): the entry point's export names are not static; left out
+ExCombos == {c \in (1..3) \X (1..3) \X (1..4) \X BOOLEAN : ~(RKs[c[1]] = "star" /\ WRs[c[3]] = "cjs")}
+RECURSIVE SeqOfCombos(_)
+ComboKey(c) == c[1] * 1000 + c[2] * 100 + c[3] * 10 + (IF c[4] THEN 1 ELSE 0)
+SeqOfCombos(S) == IF S = {} THEN << >> ELSE LET m == CHOOSE m \in S : \A k \in S : ComboKey(m) <= ComboKey(k) IN << m >> \o SeqOfCombos(S \ {m})
+ExShapes == LET cs == SeqOfCombos(ExCombos) IN [k \in 1..Len(cs) |-> ExShape(RKs[cs[k][1]], SEs[cs[k][2]], WRs[cs[k][3]], cs[k][4])]
+AllShapes == Shapes \o ExShapes
+
 \* the abstract graph of shape s when the slot statement has ground truth t
 ShapeGraph(s, slotEffect, ignoreAnn) ==
   LET n == Len(s.parts) IN
-  [files |-> 1..n, entry |-> {1}, seFalse |-> s.seFalse, ts |-> TRUE, ignoreAnn |-> ignoreAnn,
+  [files |-> 1..n, entry |-> {1}, seFalse |-> s.seFalse, cjs |-> s.cjs, ts |-> TRUE, ignoreAnn |-> ignoreAnn,
    part |-> [f \in 1..n |-> IF f = s.slotFile
                 THEN [s.parts[f] EXCEPT ![SlotIdx] = [@ EXCEPT !.effect = slotEffect, !.removable = ~slotEffect]]
                 ELSE s.parts[f]],
@@ -469,16 +543,23 @@ GraphRecord(s, t, ign) ==
   IN [rec |-> "graph", shape |-> s.id, truth |-> t, ignoreAnn |-> ign,
       mustKeep |-> ren(ProbesOf(Gr, keep)),
       mayVanish |-> ren(ProbesOf(Gr, all \ keep)) \cup (IF t = "ann" /\ ~ign THEN {"F.ann"} ELSE {}),
-      native |-> ren(ProbesOf(Gr, all)) \cup (IF t = "ann" THEN {"F.ann"} ELSE {}),
+      \* (a shape without a slot -- CommonJS target -- does not contain the statement at all)
+      native |-> ren(ProbesOf(Gr, all)) \cup (IF t = "ann" /\ s.slotFile # 0 THEN {"F.ann"} ELSE {}),
       \* may an ANNOTATED probe inside a statement that otherwise must stay vanish?
       annKeep |-> ign /\ <<s.slotFile, SlotIdx>> \in keepE,
       \* is the slot statement one that the bundle must execute if it has an effect?
-      slotKept |-> <<s.slotFile, SlotIdx>> \in keepE]
+      slotKept |-> <<s.slotFile, SlotIdx>> \in keepE,
+      \* the design keeps the exported bindings initialised on this graph (checked here, on the model)
+      exportsInit |-> ExportsInitialisedOn(Gr, LiveOf(Gr)),
+      \* wrap kind per file and the entry point's exported names, as the model derives them (cross-checked against link.done)
+      wrap |-> [f \in 1..Len(s.parts) |-> WrapOf(Gr, f)],
+      exportNames |-> ExportNames(Gr, 1)]
 
 ShapeRecord(s) ==
-  [rec |-> "shape", id |-> s.id, slotFile |-> s.paths[s.slotFile], paths |-> s.paths,
+  [rec |-> "shape", id |-> s.id, slotFile |-> IF s.slotFile = 0 THEN "" ELSE s.paths[s.slotFile], paths |-> s.paths,
    files |-> [k \in 1..Len(s.files) |-> [path |-> s.files[k][1], text |-> s.files[k][2]]],
-   annotated |-> {s.paths[f] : f \in s.seFalse}]
+   annotated |-> {s.paths[f] : f \in s.seFalse},
+   cjs |-> s.cjsPaths, readExports |-> s.readExports, dims |-> s.dims]
 
 VARIABLE x
 Init0 == x = 0
@@ -488,9 +569,9 @@ GenSpec == Init0 /\ [][Next0]_x
 Export ==
   /\ \A k \in 1..Len(ExprForms) : \A o \in 1..Len(Outer) : \A i \in 0..Len(Inner) : PrintT(<<"CASE", ToJson(ExprStmt(k, o, i))>>)
   /\ \A k \in 1..Len(StmtForms) : \A o \in StmtCtxOf(k) : PrintT(<<"CASE", ToJson(StmtStmt(k, o))>>)
-  /\ \A k \in 1..Len(Shapes) : PrintT(<<"CASE", ToJson(ShapeRecord(Shapes[k]))>>)
-  /\ \A k \in 1..Len(Shapes) : \A t \in {"yes", "no", "ann"} : \A ign \in BOOLEAN :
-        PrintT(<<"CASE", ToJson(GraphRecord(Shapes[k], t, ign))>>)
+  /\ \A k \in 1..Len(AllShapes) : PrintT(<<"CASE", ToJson(ShapeRecord(AllShapes[k]))>>)
+  /\ \A k \in 1..Len(AllShapes) : \A t \in {"yes", "no", "ann"} : \A ign \in BOOLEAN :
+        PrintT(<<"CASE", ToJson(GraphRecord(AllShapes[k], t, ign))>>)
 
 \* sanity of the table itself
 FormIds == {ExprForms[k][1] : k \in 1..Len(ExprForms)} \cup {StmtForms[k][1] : k \in 1..Len(StmtForms)}
